@@ -33,6 +33,12 @@ func genC03(g *Gen) any {
 	sc.Sess = genSessParams(g, 8)
 	sc.Sess.Stalls = nil
 	ns := g.Int(1, 4)
+	if g.Bool(0.25) {
+		// narrow pipes: a write gets on only while the peer's read loop consumes
+		sc.Sess.Window = g.Pick(256, 1024, 4096)
+		sc.Sess.NConn = g.Int(1, 2)
+		ns = g.Int(2, 4)
+	}
 	if g.Bool(0.2) {
 		sc.Sess.Singleplex = true
 		sc.Sess.NConn = 1
